@@ -13,7 +13,8 @@ class SPEC:
             "at run time) x {IPv4, IPv6 listener when the host has ::1}; sessions of a template (1..12 registry elements of supported "
             "types, all three registries) followed by data messages of 1..n records with values from the C15 generator - variable-length "
             "boundaries 0/254/255/256 always in the mix, one maximal-payload record per tcp session, extreme numeric and float patterns. "
-            "In three sessions out of ten the template is sent a second time mid-session, followed by more data. Sends are lock-step (next message only after the previous one was delivered), except for one BURST in about a quarter of the "
+            "In three sessions out of ten the template is sent a second time mid-session, followed by more data; 8 % of the tcp / udp sessions "
+            "also send ONE set of 1000..3000 small records (around and beyond 1024). Sends are lock-step (next message only after the previous one was delivered), except for one BURST in about a quarter of the "
             "sessions (at least half of the dtls ones): 3..6 small data sets of 1..3 records with distinct values, most of them of one "
             "size, handed to SendSet back-to-back while nobody reads GetMsgChan(); only then are the deliveries collected. What GetMsgChan() "
             "delivers is compared with the model's prediction and judged by Ipfix chkE2E directly against what was handed to SendSet "
@@ -109,6 +110,16 @@ def session(rng, sup, transport, fam, limit, with_burst=False):
         # and must over UDP): it has to go out and be delivered like the first time, and the data after it as well
         ops.append("e2e send %s t %d %d@%s" % (rng.choice(X.PATHS), tid, tid, X.elems(rng, ies, False)))
         ops.append("e2e send %s d %d %d@%s" % (rng.choice(X.PATHS), tid, tid, X.elems(rng, ies, True, maxlen=40)))
+    if transport in ("tcp", "udp") and rng.random() < 0.08:
+        # MANY small records in one set (1000..3000: more buffers than one vectored write takes, far more than any test
+        # sends) - one message, every record delivered, in order
+        small = [ie for ie in ies if ie.len != 65535 and ie.len <= 4][:2] or [rng.choice(G.by_type()[1])]
+        tid2 = tid + 1 if tid < 65535 else 300
+        ops.append("e2e send %s t %d %d@%s" % (rng.choice(X.PATHS), tid2, tid2, X.elems(rng, small, False)))
+        width = sum(ie.len for ie in small)
+        nrec = min(rng.choice([1000, 1023, 1024, 1025, 1500, 3000]), (limit - 40) // width)
+        recs = ";".join("%d@%s" % (tid2, ",".join("%s=%s" % (ie.tok(), G.well_typed_value(rng, ie, big_ok=False, maxlen=4)) for ie in small)) for _ in range(nrec))
+        ops.append("e2e send %s d %d %s" % (rng.choice(X.PATHS), tid2, recs))
     if with_burst:
         b = burst(rng, ies, tid)
         if b is not None:
